@@ -1,4 +1,5 @@
 import ComposeVerif.Lemmas.ShortShell
+import ComposeVerif.Props.C03
 /-!
 # C03 — string vs list for `command` / `entrypoint` / hook commands (round 6)
 
@@ -52,6 +53,23 @@ example : ordinary '\u00a0' = true ∧ ordinary '\u3000' = true ∧ ordinary '\x
 example : shellParse "Prix\u00a0:\u00a010".toList = some ["Prix\u00a0:\u00a010".toList] := by decide
 example : (ShSpec.mk [⟨[], [.plain "sh".toList]⟩, ⟨" ".toList, [.plain "-c".toList]⟩, ⟨" \t".toList, [.sq "a b".toList, .esc ';', .dq "x'y".toList]⟩] " ".toList).wf = true := by decide
 example : shellParse "sh -c 'a b'\\;\"x'y\" ".toList = some ["sh".toList, "-c".toList, "a b;x'y".toList] := by decide
+
+/-! ## `SSHConfig` -/
+
+/-- `build.ssh: [default, ID=PATH]` and `build.ssh: {default: null, ID: PATH}` are the same canonical mapping, which
+`SSHConfig.DecodeMapstructure` accepts: the two spellings are the same typed `SSHConfig` -/
+theorem sshConfig_short_eq_long (id path : Str) (hid : ∀ x ∈ id, x ≠ '=') (hd : String.ofList id ≠ "default") :
+    ∃ t, transformSSH (.seq [.str "default", .str (String.ofList (id ++ '=' :: path))]) = .ok t
+      ∧ transformSSH (.map [("default", .null), (String.ofList id, sv path)]) = .ok t
+      ∧ (decodeSSHConfig t).isSome = true :=
+  ⟨_, transformSSH_short_eq_long id path hid hd, transformSSH_long_id _, rfl⟩
+
+/-- the list spelling never reaches the decoder un-canonicalised: a list is rejected by `SSHConfig.DecodeMapstructure` -/
+theorem sshConfig_mapping_only (l : List Val) : decodeSSHConfig (.seq l) = none := rfl
+
+example : decodeSSHConfig (.map [("k", .str "/p"), ("default", .null)])
+    = some (.seq [.map [("id", .str "default"), ("path", .str "")], .map [("id", .str "k"), ("path", .str "/p")]]) := by
+  simp [decodeSSHConfig, sshInsert, sprint]
 
 /-! near misses: an open quote, a trailing escape are rejected — never a partial command -/
 
